@@ -558,7 +558,7 @@ type Picker interface {
 }
 
 // Dims is the dimension menu (cropping; 1-3 macroblocks per side).
-var Dims = [][2]int{{16, 16}, {1, 1}, {15, 17}, {17, 16}, {33, 17}, {32, 32}, {31, 1}, {16, 33}}
+var Dims = [][2]int{{16, 16}, {1, 1}, {15, 17}, {17, 16}, {33, 17}, {32, 32}, {31, 1}, {16, 33}, {1, 18}, {2, 3}}
 
 // Generate builds one key frame from the picker's decisions.
 func Generate(pk Picker, seed int64) (*Frame, string) {
